@@ -104,6 +104,10 @@ def _repeat_of_row_counts(x, reps):
     ctx = cur()
     ms = mask_selector(R)
     ctx.trusted.add("counting lemma (assumed; cross-checked natively): repeat(x, row counts of R)[p] = x[row of the p-th True of R]")
+    # a consequence of the row-major order of the enumeration, stated for the solver: rows do not decrease
+    p, q = z3.Int(ctx.fresh("rep.p")), z3.Int(ctx.fresh("rep.q"))
+    sp, sq = ms.sel(p)[0], ms.sel(q)[0]
+    ctx.assume(_forall([p, q], z3.Implies(z3.And(0 <= p, p <= q, q < ms.K), sp <= sq), patterns=[z3.MultiPattern(sp, sq)], dims=[rowmajor(R.zshape).N] * 2), tag="counting-lemma")
     out = SymArray((ms.K,), lambda idx: x.get((ms.sel(idx[0])[0],)), x._dtype)
     out.mutable = True
     return out
